@@ -97,9 +97,16 @@ def freeze(x, _depth=0):
     frozen key so unordered collections compare equal regardless of order."""
     if _depth > 40:
         return ('<deep>',)
-    if isinstance(x, (str, bytes, int, float, bool, type(None))):
+    t = type(x)
+    if t is str or t is bytes or t is int or t is float or t is bool \
+            or x is None:
+        return (t.__name__, x)
+    if isinstance(x, (str, bytes, int, float)):
         return (type(x).__name__, x)
     if isinstance(x, dict):
+        if all(type(k) is str for k in x):
+            return ('dict', tuple((('str', k), freeze(x[k], _depth + 1))
+                                  for k in sorted(x)))
         items = [(freeze(k, _depth + 1), freeze(v, _depth + 1))
                  for k, v in x.items()]
         return ('dict', tuple(sorted(items, key=repr)))
